@@ -94,6 +94,7 @@ int main(int argc, char **argv)
 		if (r < 0) r = ops_codec(args, na);
 		if (r < 0 && !strncmp(args[0], "m.", 2)) r = ops_merger(args, na);
 		if (r < 0 && !strncmp(args[0], "fs.", 3)) r = ops_fileset(args, na);
+		if (r < 0 && (!strncmp(args[0], "cz.", 3) || !strncmp(args[0], "wa.", 3) || !strncmp(args[0], "res.", 4))) r = ops_misc(args, na);
 		if (r < 0 && (!strncmp(args[0], "s.", 2) || !strncmp(args[0], "sys.", 4))) r = ops_sorter(args, na);
 		if (r < 0) puts("bad-op");
 		fflush(stdout);
